@@ -72,6 +72,8 @@ def uf_signature(ev, clause):
     if clause in ('value', 'dtype', 'exact-value', 'out-not-written'):
         sig['dtype'] = dtype_class(ev['dt'])
     sig['layout'] = {'C': 'C', 'F': 'F', 'S': 'strided'}[ev.get('layout', 'C')]
+    if ev.get('special'):
+        sig['data'] = 'special:' + ev['special'][0]
     return sig
 
 
@@ -97,6 +99,8 @@ def report_event(ctx, seen, ev, info, clause, tlc=None):
     else:
         sig = {'kind': ev['kind'], 'method': 'legacy', 'clause': clause, 'form': ev['form'],
                'nout': str(ev['nout']), 'dtype': dtype_class(ev['dt'])}
+        if ev.get('special'):
+            sig['data'] = 'special:' + ev['special'][0]
         d = {'stage': 'legacy', 'event': ev, 'exc': info.get('exc', ''), 'tlc_clauses': tlc or ''}
     report(ctx, seen, sig, d)
 
@@ -187,6 +191,8 @@ def run(ctx):
         'keyword options exercised: axis, keepdims, dtype, out (where= is not part of the statement)',
         'power spaces need >= 2 axes (X^n of tensor spaces); 0-d out objects are exercised (rn(()) exists)',
         'a Python builtin scalar returned for a full reduction carries no dtype (no dtype clause for it)',
+        'data alphabet: small integers / dyadics, plus NaN, +inf, -inf, -0.0 at the first / a middle / the last entry '
+        '(component) for every ufunc, method, element kind and legacy wrapper; NaN-ness and the sign of zero count',
         'memory layout is a concretisation axis: operands (element storage and plain arrays) and out objects are C-ordered, '
         'Fortran-ordered or strided views of caller-owned buffers; elements wrap them without copy']
     work = ctx.work
@@ -248,9 +254,9 @@ def run(ctx):
     applicable = set()        # (ufunc, dtype, kind, method, outkind) combinations actually executed
     layouts_done = set()      # (kind, method, outkind, layout)
 
-    def execute(case, uf, dt, variant, exp=None, exact_inputs=True, cplx=False, layout='C'):
+    def execute(case, uf, dt, variant, exp=None, exact_inputs=True, cplx=False, layout='C', special=None):
         try:
-            ev, info = U.run_case(case, uf, dt, variant, exact_inputs, cplx, layout)
+            ev, info = U.run_case(case, uf, dt, variant, exact_inputs, cplx, layout, special)
         except U.NotApplicable:
             return None
         ev['canonical'] = int(exact_inputs and not cplx)
@@ -262,7 +268,7 @@ def run(ctx):
         layouts_done.add((case['kind'], case['method'], case['outkind'], layout))
         nontriv = not (case['method'] == 'call' and case['outkind'] == 'none' and case['order'] in ('e', 'ee')
                        and ev['ref_dtype'] == [dt])
-        ctx.count([case, uf.__name__, dt, variant], nontriv)
+        ctx.count([case, uf.__name__, dt, variant, special], nontriv)
         if exp is not None:
             for clause in compare_export(ev, exp):
                 report_event(ctx, seen, ev, info, clause)
@@ -334,6 +340,38 @@ def run(ctx):
     timing['all_ufuncs_sweep'] = round(time.time() - t_sec, 1)
     t_sec = time.time()
 
+    # ---- 3b. special values: NaN, +-inf, -0.0 at the first / a middle / the last entry (component) ----
+    # every ufunc x kind x method; the reduction-type core with all 12 (value, position) pairs, the others with
+    # three; NumPy on the raw arrays decides (NaN-ness and the sign of zero count)
+    core = {'add', 'subtract', 'multiply', 'maximum', 'minimum', 'fmax', 'fmin', 'logaddexp', 'hypot'}
+    n_spec = 0
+    for uf in ufs:
+        ucls = U.ucls_of(uf)
+        if ucls is None:
+            continue
+        hname = sum(map(ord, uf.__name__))
+        for ki, kind in enumerate(('tensor', 'discr', 'power')):
+            for mi, method in enumerate(('call', 'reduce', 'accumulate', 'outer', 'at', 'reduceat')):
+                lst = basic.get((kind, ucls, method), [])
+                if not lst:
+                    continue
+                plain = [p for p in lst if p['case']['outkind'] == 'none' and p['case']['dtkw'] == 'none']
+                given = [p for p in lst if p['case']['outkind'] != 'none' and p['case']['dtkw'] == 'none']
+                picks = ([plain[hname % len(plain)]] if plain else []) + ([given[(hname + mi) % len(given)]] if given else [])
+                if uf.__name__ in core or not quick:
+                    specs = U.SPECIALS
+                else:
+                    specs = [U.SPECIALS[(hname + ki + mi + 5 * j) % 12] for j in range(3)]
+                for pi, p in enumerate(picks):
+                    for si, sp_ in enumerate(specs):
+                        dt = ('float64', 'float32', 'complex128')[(si + pi + hname) % 3] if uf.__name__ in core else 'float64'
+                        ev = execute(p['case'], uf, dt, 0, p['exp'], exact_inputs=False,
+                                     layout=U.LAYOUTS[(si + mi) % 3], special=sp_)
+                        n_spec += ev is not None
+    ctx.extra['special_value_events'] = n_spec
+    timing['special_values'] = round(time.time() - t_sec, 1)
+    t_sec = time.time()
+
     # ---- 4. wrapping, legacy interface ----
     for kind in ('tensor', 'discr', 'power'):
         for shape in ([3], [2, 3], [2, 3, 2]):
@@ -362,6 +400,23 @@ def run(ctx):
                 ev, info = U.legacy_event(kind, [2, 3], dt, name, 'reduce', 0)
                 events.add(ev, info)
                 ctx.count(['legacy', kind, dt, name, 'reduce'], True)
+            if np.dtype(dt).kind in 'fc':
+                # special values in the first / a middle / the last entry (component of a power element)
+                for name in ('sum', 'prod', 'min', 'max'):
+                    if name == 'prod' and np.dtype(dt).kind == 'c':
+                        continue        # complex products with inf / -0.0 depend on the association (IEEE), which
+                        #                 a component-wise legacy reduction may legitimately choose differently
+                    for sp_ in U.SPECIALS:
+                        for shape in ([2, 3], [3, 2]):
+                            ev, info = U.legacy_event(kind, shape, dt, name, 'reduce', 0, special=sp_)
+                            events.add(ev, info)
+                            ctx.count(['legacy', kind, dt, name, 'reduce', sp_, shape], True)
+                for ni, name in enumerate(RAW_UFUNCS):
+                    for j in range(2 if quick else 12):
+                        sp_ = U.SPECIALS[(ni + 5 * j + len(dt)) % 12]
+                        ev, info = U.legacy_event(kind, [2, 3], dt, name, 'plain', 0, special=sp_)
+                        events.add(ev, info)
+                        ctx.count(['legacy', kind, dt, name, 'plain', sp_], True)
     timing['wrap_legacy'] = round(time.time() - t_sec, 1)
     t_sec = time.time()
 
@@ -447,7 +502,7 @@ def replay(body):
         uf = getattr(np, d['ufunc'])
         old = d['observed']
         ev, info = U.run_case(d['case'], uf, d['dtype'], d['variant'], bool(old['inmode'][0]), bool(old['inmode'][1]),
-                              old.get('layout', 'C'))
+                              old.get('layout', 'C'), tuple(old['special']) if old.get('special') else None)
         print('configuration:', dumps(d['case']))
         print('ufunc / dtype:', d['ufunc'], d['dtype'], 'variant', d['variant'])
         print('reference    : shape', ev['ref_shape'], 'dtype', ev['ref_dtype'])
@@ -465,7 +520,8 @@ def replay(body):
         ok = ev['shares'] and ev['roundtrip'] and ev['sees_write']
     else:
         e = d['event']
-        ev, info = U.legacy_event(e['kind'], e['shape'], e['dt'], e['name'], e['form'], e['variant'])
+        ev, info = U.legacy_event(e['kind'], e['shape'], e['dt'], e['name'], e['form'], e['variant'],
+                                  tuple(e['special']) if e.get('special') else None)
         print('legacy:', dumps(ev), info.get('exc', ''))
         ok = not (ev['err'] == e['err'] and ev['lkind'] == e['lkind'] and ev['ldtype'] == e['ldtype'])
     print('REPRODUCED' if not ok else 'NOT-REPRODUCED')
